@@ -138,11 +138,13 @@ class MemMapWorld(World):
                 ops.append({"k": "align", "m": m, "a": rng.range(0, 4) if rng.chance(0.9) else -1})
             elif k < 64:
                 ops.append({"k": "freeze", "m": m})
-            elif k < 69:
+            elif k < 66:
+                # the map is handed to a register bridge (accepted only if it holds nothing but
+                # registers, e.g. nothing at all): frozen by use
+                ops.append({"k": "bridge", "m": m})
+            elif k < 71:
                 ops.append({"k": "peek", "m": m, "n": rng.range(0, 3),
                             "what": rng.choice(["all", "all", "res", "win", "find", "decode", "pat"])})
-            elif k < 66:
-                ops.append({"k": "bridge", "m": m})
             else:
                 w = rng.below(nm)
                 op = {"k": "win", "m": m, "w": w,
@@ -226,7 +228,11 @@ class MemMapWorld(World):
                     r = it["ratio"]
                     for (oid, path, s, e, w) in expected_all(it["win"]):
                         if s % r or e % r:
-                            raise HarnessError("model produced a non-integral dense translation")
+                            # the allocator handed out a range inside a dense window's map that
+                            # is not a multiple of the ratio: C02's business (size rounding); the
+                            # translation C03 speaks of is undefined for it
+                            raise Refused("a range behind a dense window is not a multiple of "
+                                          "the ratio (allocation is C02's business)")
                         p = path if it["name"] is None else (tuple(it["name"]),) + path
                         out.append((oid, p, it["start"] + s // r, it["start"] + e // r, w * r))
             return out
@@ -235,9 +241,11 @@ class MemMapWorld(World):
             for i in range(len(real)):
                 if model[i].parent is not None:
                     continue
-                exp = expected_all(i)
+                # the real query first: an exception inside it on a tree the API accepted is a
+                # lookup failure in its own right (reported as an internal error by the runner)
                 got = [(id(x.resource), tuple(tuple(n) for n in x.path), x.start, x.end, x.width)
                        for x in real[i].all_resources()]
+                exp = expected_all(i)
                 stats.checks += 1
                 if got != exp:
                     raise V("C03", "all_resources-mismatch", step,
